@@ -21,7 +21,7 @@ end Rank
 
 /-- What a check returns (`issue.Issue(...)` before the tester fills in defaults). -/
 structure Raw where
-  id : Str
+  id : Str := []          -- `test_id`; empty unless the check names it (only the blacklist does)
   sev : Rank
   conf : Rank
   lineno : Option Nat := none
@@ -60,6 +60,12 @@ structure Check where
   name : Str
   kinds : List Str
   run : Env → M (Option Raw)
+
+/-- A plugin check: plugins never name their test ID (the tester fills it in), which the
+constructor makes true by construction. -/
+def Check.plugin (id name : String) (kinds : List Str) (f : Env → M (Option Raw)) : Check :=
+  { id := id.toList, name := name.toList, kinds := kinds,
+    run := fun e => (f e).map (Option.map fun r => { r with id := [] }) }
 
 /-- A reported finding, after the tester filled in the defaults. -/
 structure Finding where
@@ -112,13 +118,17 @@ def emit (nm : NosecMap) (ctx : Ctx) (raw : Raw) : M Event := do
   | some s => if s.contains raw.id then pure (.skipped f) else pure (.finding f)
   | none => pure (.finding f)
 
+/-- `if result.test_id == "": result.test_id = test._test_id` — plugins do not name their ID,
+the tester fills it in; only the blacklist names the matching rule's ID itself. -/
+def fillId (c : Check) (raw : Raw) : Raw := if raw.id.isEmpty then { raw with id := c.id } else raw
+
 /-- `run_tests` for one check on one context. -/
 def runCheck (nm : NosecMap) (env : Env) (c : Check) : List Event :=
   match c.run env with
   | .error _ => [.crash c.name]
   | .ok none => []
   | .ok (some raw) =>
-    match emit nm env.ctx raw with
+    match emit nm env.ctx (fillId c raw) with
     | .ok e => [e]
     | .error _ => [.crash c.name]
 
